@@ -84,14 +84,24 @@ pub struct Case {
     /// calls made earlier on the same thread (function, data length): history that must not leak
     #[serde(default)]
     pub pre: Vec<(Func, usize)>,
+    /// calls of the same function made earlier on the SAME buffer (same address and length) while it
+    /// held other values: the buffer is then overwritten in place with `data`
+    #[serde(default)]
+    pub pre_same: usize,
 }
 
 /// structure-only check of one call on plain distinct data (used for the earlier calls of a run)
 fn structural(func: Func, n: usize) -> Option<(&'static str, &'static str, String)> {
     let data: Vec<f64> = (0..n).map(|i| i as f64 + 0.25).collect();
+    structural_on(func, &data)
+}
+
+/// the same, on a caller-owned buffer that holds i + 0.25 at position i
+fn structural_on(func: Func, data: &[f64]) -> Option<(&'static str, &'static str, String)> {
+    let n = data.len();
     alea::sim::set_budget(100_000 + 64 * n as u64);
     let r = match func {
-        Func::Bootstrap => match catch(|| bootstrap(&data, 3)) {
+        Func::Bootstrap => match catch(|| bootstrap(data, 3)) {
             Err(m) => Some(("bootstrap_structure", "panic", m)),
             Ok(out) => {
                 if out.len() != 3 || out.iter().any(|v| v.len() != n) {
@@ -103,7 +113,7 @@ fn structural(func: Func, n: usize) -> Option<(&'static str, &'static str, Strin
                 }
             }
         },
-        Func::Jackknife => match catch(|| jackknife(&data)) {
+        Func::Jackknife => match catch(|| jackknife(data)) {
             Err(m) => Some(("jackknife_exact", "panic", m)),
             Ok(out) => {
                 if out.len() != n || out.iter().enumerate().any(|(i, v)| v.len() != n - 1 || v.iter().any(|x| *x == data[i])) {
@@ -113,7 +123,7 @@ fn structural(func: Func, n: usize) -> Option<(&'static str, &'static str, Strin
                 }
             }
         },
-        Func::Shuffle => match catch(|| shuffle(&data)) {
+        Func::Shuffle => match catch(|| shuffle(data)) {
             Err(m) => Some(("shuffle_multiset", "panic", m)),
             Ok(out) => {
                 let mut b = out.clone();
@@ -127,7 +137,7 @@ fn structural(func: Func, n: usize) -> Option<(&'static str, &'static str, Strin
         },
         Func::ShuffleTwo => {
             let tags: Vec<f64> = (0..n).map(tag).collect();
-            match catch(|| shuffle_two(&data, &tags)) {
+            match catch(|| shuffle_two(data, &tags)) {
                 Err(m) => Some(("shuffle_two_paired", "panic", m)),
                 Ok((x, y)) => {
                     let ok = x.len() == n && y.len() == n && {
@@ -150,6 +160,28 @@ fn structural(func: Func, n: usize) -> Option<(&'static str, &'static str, Strin
     r
 }
 
+/// layer boundaries of the 128-layer ziggurat (fault seeds only: forced generator outputs are placed
+/// on and next to the boundary `j == K[i]` of a layer's fast-accept region; if the library's table ever
+/// differed, these would merely be ordinary interior values)
+pub const ZIG_K: [u32; 128] = [
+    0, 12590644, 14272653, 14988939, 15384584, 15635009, 15807561, 15933577,
+    16029594, 16105155, 16166147, 16216399, 16258508, 16294295, 16325078, 16351831,
+    16375291, 16396026, 16414479, 16431002, 16445880, 16459343, 16471578, 16482744,
+    16492970, 16502368, 16511031, 16519039, 16526459, 16533352, 16539769, 16545755,
+    16551348, 16556584, 16561493, 16566101, 16570433, 16574511, 16578353, 16581977,
+    16585398, 16588629, 16591685, 16594575, 16597311, 16599901, 16602354, 16604679,
+    16606881, 16608968, 16610945, 16612818, 16614592, 16616272, 16617861, 16619363,
+    16620782, 16622121, 16623383, 16624570, 16625685, 16626730, 16627708, 16628619,
+    16629465, 16630248, 16630969, 16631628, 16632228, 16632768, 16633248, 16633671,
+    16634034, 16634340, 16634586, 16634774, 16634903, 16634972, 16634980, 16634926,
+    16634810, 16634628, 16634381, 16634066, 16633680, 16633222, 16632688, 16632075,
+    16631380, 16630598, 16629726, 16628757, 16627686, 16626507, 16625212, 16623794,
+    16622243, 16620548, 16618698, 16616679, 16614476, 16612071, 16609444, 16606571,
+    16603425, 16599973, 16596178, 16591995, 16587369, 16582237, 16576520, 16570120,
+    16562917, 16554758, 16545450, 16534739, 16522287, 16507638, 16490152, 16468907,
+    16442518, 16408804, 16364095, 16301683, 16207738, 16047994, 15704248, 15472926,
+];
+
 pub fn fault_raw(kind: &str, r: &mut Sm) -> u64 {
     match kind {
         "rng_zero" => 0,
@@ -158,6 +190,21 @@ pub fn fault_raw(kind: &str, r: &mut Sm) -> u64 {
         "rng_half" => 1 << 63,
         // Ziggurat: low 7 bits = layer 127, mid bits all ones => j >= K[i] => tail branch
         "rng_tail" => 0x0000_0000_FFFF_FF7F | ((r.next() & 1) << 7) | (r.next() << 32),
+        // Ziggurat: a candidate exactly on / next to the edge of a layer's fast-accept region
+        "rng_zig_edge" => {
+            let i = match r.below(4) {
+                0 => 127usize,
+                1 => *r.pick(&[0usize, 1, 126]),
+                _ => r.below(128) as usize,
+            };
+            let k = ZIG_K[i] as u64;
+            let j = match r.below(3) {
+                0 => k.saturating_sub(1),
+                1 => k,
+                _ => (k + 1).min(0xFF_FFFF),
+            };
+            (r.next() << 32) | (j << 8) | ((r.next() & 1) << 7) | i as u64
+        }
         _ => r.next(),
     }
 }
@@ -266,6 +313,7 @@ impl Prop for C19 {
                 script: vec![],
                 repeat: 12,
                 pre: vec![],
+                pre_same: (run % 3 == 2) as usize,
             };
         }
         let _ = tier;
@@ -282,6 +330,7 @@ impl Prop for C19 {
                 script: vec![],
                 repeat: 40,
                 pre: vec![],
+                pre_same: 0,
             };
         }
         let func = *r.pick(&[
@@ -353,20 +402,40 @@ impl Prop for C19 {
                 pre.push((f, len.min(3000)));
             }
         }
-        Case { func, data: fbs(&data), mode: mode.into(), n_boot, seeding, script, repeat, pre }
+        let pre_same = if r.chance(0.25) { 1 + r.below(2) as usize } else { 0 };
+        Case { func, data: fbs(&data), mode: mode.into(), n_boot, seeding, script, repeat, pre, pre_same }
     }
 
     fn exec(case: &Case, st: &mut Stats) -> Option<Viol> {
-        let data = unfb(&case.data);
-        let n = data.len();
+        let n = case.data.len();
+        // the buffer the main call reads; with pre_same > 0 it first holds other values and is read
+        // by earlier calls of the same function, then it is overwritten in place
+        let mut data: Vec<f64> = Vec::with_capacity(n);
+        let mut same_verdict: Option<Viol> = None;
+        if case.pre_same > 0 {
+            case.seeding.apply();
+            data.extend((0..n).map(|i| i as f64 + 0.25));
+            for _ in 0..case.pre_same {
+                st.inc("earlier_calls_on_same_buffer");
+                if let Some((check, class, detail)) = structural_on(case.func, &data) {
+                    same_verdict = Some(Viol::new(check, class, detail).k("func", format!("{:?}", case.func)).k("len", "earlier_call"));
+                    break;
+                }
+            }
+            data.clear();
+        }
+        data.extend(case.data.iter().map(|x| x.0));
         let fname = format!("{:?}", case.func);
         let lenclass = if n == 1 { "len1" } else if n <= 8 { "len2-8" } else { "len9+" };
         let mut h = H64::new();
         h.s(&fname);
         h.fs(&data);
         case.seeding.apply();
-        let mut pre_verdict: Option<Viol> = None;
+        let mut pre_verdict: Option<Viol> = same_verdict;
         for (pf, pl) in &case.pre {
+            if pre_verdict.is_some() {
+                break;
+            }
             st.inc("earlier_calls_on_thread");
             if let Some((check, class, detail)) = structural(*pf, (*pl).max(1)) {
                 pre_verdict = Some(Viol::new(check, class, detail).k("func", format!("{:?}", pf)).k("len", "earlier_call"));
@@ -718,6 +787,11 @@ impl Prop for C19 {
                 out.push(c);
             }
         }
+        if case.pre_same > 0 {
+            let mut c = case.clone();
+            c.pre_same = 0;
+            out.push(c);
+        }
         for rp in [1usize, case.repeat / 2] {
             if rp >= 1 && rp < case.repeat {
                 let mut c = case.clone();
@@ -772,7 +846,7 @@ impl Prop for C19 {
             "len.len2-8", "len.len9+", "mode.distinct", "mode.repeated", "mode.special", "mode.special_distinct",
             "seeding.seed_clock", "seeding.seed_small", "seeding.seed_set", "fault.rng_zero",
             "fault.rng_max", "fault.rng_tiny", "fault.rng_half", "fault.rng_streak",
-            "stat.dkw_checked", "stat.coverage_checked", "stat.frequency_checked", "stat.joint_checked", "stat.chi_square_checked", "stat.order_checked", "earlier_calls_on_thread", "fault.rng_pair",
+            "stat.dkw_checked", "stat.coverage_checked", "stat.frequency_checked", "stat.joint_checked", "stat.chi_square_checked", "stat.order_checked", "earlier_calls_on_thread", "earlier_calls_on_same_buffer", "fault.rng_pair",
         ]
         .iter()
         .map(|s| s.to_string())
